@@ -172,3 +172,11 @@ META["C18"] = dict(
                 "and return values compared with the limit."),
     level_note=("Trusted: the taps see every datagram and frame the library writes (ListenPacket / DialContext hooks); multicast excluded."),
 )
+
+META["C19"] = dict(
+    design_ref="DESIGN.md section 4, C19",
+    technique="property-based testing (rapid) with fault injection: generated intruder datagrams (other addresses/ports, valid content) and replayed control requests against live sessions and clients; callbacks, statistics, timeouts and session state as oracles",
+    level_text=("Exploration: generated intruder sources x datagram kinds x roles, with silence phases for the timeout clause, and generated replayed "
+                "requests x victim states x origins."),
+    level_note=("Trusted: loopback aliases as 'other addresses'; IPv4-mapped forms not reachable."),
+)
